@@ -139,74 +139,11 @@ mod verif_extdata {
     }
 
     // ------------------------------------------------------------------ loaders
-
-    /// `RandomState::new` reads OS randomness (foreign call, unsupported by Kani): fixed keys.
-    pub fn fixed_random_state() -> std::hash::RandomState {
-        unsafe { std::mem::transmute::<[u64; 2], std::hash::RandomState>([0x0123_4567_89ab_cdef, 0x0f1e_2d3c_4b5a_6978]) }
-    }
-
-    pub const STORAGE: usize = 8;
-    const GOOD: &str = "m.data";
-
-    /// storage of symbolic length k <= STORAGE without a symbolic-size allocation
-    fn any_storage() -> (Arc<ConstantStorage>, usize) {
-        let mut buf = vec![0u8; STORAGE];
-        let k: usize = kani::any();
-        kani::assume(k <= STORAGE);
-        buf.truncate(k);
-        (Arc::new(ConstantStorage::Buffer(buf)), k)
-    }
-
-    /// Ok(slice) => slice is exactly [offset, offset+length) computed over the integers, inside
-    /// the registered storage; reading it does not panic.
-    fn check_range(r: Result<DataSlice, ExternalDataError>, storage: &Arc<ConstantStorage>, k: usize, offset: u64, length: u64) {
-        match r {
-            Ok(slice) => {
-                assert!(Arc::ptr_eq(&slice.storage, storage), "data taken from another file");
-                assert!(slice.bytes.start as u128 == offset as u128, "slice does not start at offset");
-                assert!(slice.bytes.end as u128 == offset as u128 + length as u128, "slice does not end at offset+length");
-                assert!(slice.bytes.end <= k, "slice extends past the end of the file");
-                assert!(slice.data().len() as u64 == length);
-                kani::cover!(offset > 0 && length > 0);
-                kani::cover!(offset as usize == k);
-            }
-            Err(_) => {
-                kani::cover!(offset.checked_add(length).is_none()); // overflowing sum is in the domain
-                kani::cover!(offset <= k as u64 && length <= k as u64);
-            }
-        }
-    }
-
-    #[kani::proof]
-    #[kani::unwind(12)]
-    #[kani::stub(std::hash::RandomState::new, fixed_random_state)]
-    pub fn mem_loader_range() {
-        let (storage, k) = any_storage();
-        let mut map = HashMap::new();
-        map.insert(GOOD.to_string(), storage.clone());
-        let loader = MemLoader::new(map);
-        let offset: u64 = kani::any();
-        let length: u64 = kani::any();
-        let r = loader.load(&DataLocation { path: GOOD.to_string(), offset, length });
-        check_range(r, &storage, k, offset, length);
-    }
-
-    #[cfg(feature = "mmap")]
-    #[kani::proof]
-    #[kani::unwind(12)]
-    #[kani::stub(std::hash::RandomState::new, fixed_random_state)]
-    pub fn mmap_loader_range() {
-        // The real MmapLoader::load / get_or_open_mmap run on an already-open entry, so no file is
-        // mapped; the entry's storage is an in-memory buffer (same `storage.data()` interface).
-        let (storage, k) = any_storage();
-        let mut map: HashMap<PathBuf, (PathBuf, Arc<ConstantStorage>)> = HashMap::new();
-        map.insert(PathBuf::from(GOOD), (PathBuf::from(GOOD), storage.clone()));
-        let loader = MmapLoader { dir_path: PathBuf::new(), mmaps: RefCell::new(map) };
-        let offset: u64 = kani::any();
-        let length: u64 = kani::any();
-        let r = loader.load(&DataLocation { path: GOOD.to_string(), offset, length });
-        check_range(r, &storage, k, offset, length);
-    }
+    // NOT CHECKED (tool limit, see units.d/extdata.json "not_decided"): MemLoader::load,
+    // MmapLoader::load and FileLoader::read all go through a std HashMap. Under CBMC a single
+    // String-key `insert` takes 17 min, `insert`+`get` exceeds 20 GB / 45 min without a result,
+    // and `#[kani::stub(std::collections::HashMap::get, ..)]` is rejected by Kani 0.68
+    // ("Expected type `&HashMap<K, V, S, A>` ... found `&HashMap<K, V, S, A>`").
 
     // ------------------------------------------------------------------ read_fill
 
